@@ -766,6 +766,26 @@ def start_nodes(ctx: Ctx):
             okm = len(st) == 1 and nf.strip(st[0].args[1], True).op in ("inv", "not") and "action_mask" in vg.show(st[0].args[1], 4) and C10_is_neg_inf(st[0].args[2])
             whym = "weights[~action_mask] = -inf before the softmax: infeasible actions have probability exactly 0"
     ctx.ob("C12.d", "sample_n_random_actions:replacement-only-if-needed", ok, fi.loc, why, construct="sample_n_random_actions:replacement")
+    # the number of valid actions is counted over the same columns that can be drawn
+    oks, whys = False, "count of valid actions not found"
+    if len(mult) == 1 and isinstance(rep, vg.S) and rep.op in ("phi", "ifexp"):
+        cnts = [n_ for n_ in vg.walk(rep.args[0]) if (nf._fn(n_) in ("torch.sum", "torch.count_nonzero") or (n_.op == "meth" and n_.args[1] in ("sum", "count_nonzero"))) and "action_mask" in vg.show(n_, 6)]
+        if cnts:
+            operand = cnts[0].args[1] if cnts[0].op == "call" else cnts[0].args[0]
+            o0 = operand
+            while isinstance(o0, vg.S) and o0.op == "meth" and o0.args[1] in ("float", "int", "long", "bool", "to"):
+                o0 = o0.args[0]
+            sliced = o0.op == "sub" and any(isinstance(c_, vg.S) and c_.op == "slice" and not all(vg.is_none(y) for y in c_.args) for c_ in (o0.args[1].args if o0.args[1].op == "tuple" else [o0.args[1]]))
+            # columns excluded from the count must have weight -inf (or be excluded from the draw) as well
+            w_full = okm and len(st) == 1 and nf.strip(st[0].args[1], True).op in ("inv", "not")
+            excluded_too = False
+            if sliced and w_full:
+                stores = [x for x in vg.walk(inner) if x.op == "store"]
+                excluded_too = len(stores) > 1
+            oks = (not sliced) or excluded_too
+            whys = ("valid actions are counted over " + ("a column slice of the mask" if sliced else "the whole mask") + "; the draw is over " +
+                    ("the same columns" if oks else "ALL columns: for an env whose column 0 is a valid start (no depot) the count is one short, so n = number of nodes forces replacement although n distinct starts exist"))
+    ctx.ob("C12.d", "sample_n_random_actions:count-support", oks, fi.loc, whys, construct="sample_n_random_actions:count-support")
     ctx.ob("C12.d", "sample_n_random_actions:masked-weights", okm, fi.loc, whym, construct="sample_n_random_actions:masking")
     # start selection is per instance: neither the indices nor the choice of formula / the replacement flag may come from a
     # reduction over the whole batch (one short instance would otherwise change the starts of all its batch-mates)
